@@ -123,10 +123,12 @@ def run_property(P, tier, seed, replay_lines=None):
     groups = {}
     for i, c in enumerate(cases):
         if c.op is not None:
-            groups.setdefault((c.flavour, c.exe), []).append(i)
-    for (fl, exe), idxs in groups.items():
-        outs = implside.run_ops(hd[fl], [cases[i].op for i in idxs], workdir, f"{fl}-{exe}", exe=exe,
-                                timeout=getattr(P, "TIMEOUT", 1800))
+            envk = tuple(sorted((getattr(c, "env", None) or {}).items()))
+            groups.setdefault((c.flavour, c.exe, envk, getattr(c, "group", 0)), []).append(i)
+    for gi, ((fl, exe, envk, _grp), idxs) in enumerate(groups.items()):
+        outs = implside.run_ops(hd[fl], [cases[i].op for i in idxs], workdir, f"{fl}-{exe}-{gi}", exe=exe,
+                                timeout=getattr(P, "TIMEOUT", 1800), env=dict(envk) or None,
+                                atomic=any(k == "VH_THREADS" for k, _ in envk))
         for i, o in zip(idxs, outs):
             cases[i].hout = o
 
@@ -160,12 +162,25 @@ def run_property(P, tier, seed, replay_lines=None):
     disagreements = []
     for c in cases:
         if c.hout is not None and c.hout.startswith("CRASH") and not getattr(c, "crash_ok", False):
-            sig = "crash:" + (c.note or c.op.split(" ", 1)[0])
+            sig = getattr(c, "sig_override", None) or ("crash:" + (c.note or c.op.split(" ", 1)[0]))
+            if sig in known:
+                res.known_hits.append((sig, known[sig]))
+                continue
             res.violations.append({"kind": "implementation-crash", "signature": sig,
                                    "text": c.hout, "case": c})
             continue
         if c.oracle is not None and c.hout is not None:
             v = c.oracle(c.hout, c)
+            if v is not None:
+                sig, txt = v
+                if sig in known:
+                    res.known_hits.append((sig, known[sig]))
+                else:
+                    res.violations.append({"kind": "property-violated-by-implementation", "signature": sig,
+                                           "text": txt, "case": c})
+        sp = getattr(c, "spec", None)
+        if sp is not None and c.hout is not None and c.mout is not None:
+            v = sp(c.hout, c.mout, c)
             if v is not None:
                 sig, txt = v
                 if sig in known:
@@ -227,7 +242,11 @@ def run_property(P, tier, seed, replay_lines=None):
             "model_output": getattr(c, "mout", None), "flavour": getattr(c, "flavour", None),
             "others": [{"signature": x["signature"], "text": _short(x["text"]), "op": _short(getattr(x["case"], "op", ""), 2000)}
                        for x in res.violations[1:10]],
-            "broken_obligations": broken_proofs[:10]})
+            "broken_obligations": broken_proofs[:10],
+            "env": getattr(c, "env", None),
+            "batch_ops": ([x.op for x in cases if getattr(x, "env", None) == getattr(c, "env", None)
+                           and x.flavour == c.flavour and getattr(x, "group", 0) == getattr(c, "group", 0)]
+                          if getattr(c, "env", None) else None)})
         print(f"VIOLATION property={pid} replay={path}")
         exit_code = 1
     elif no_input:
@@ -258,6 +277,10 @@ def _write_evidence(P, res, obligations, discharged, names, axioms, cases, disag
     tags = {}
     for c in cases:
         for t in c.tags:
+            tags[t] = tags.get(t, 0) + 1
+        tg = getattr(c, "mtag", None)
+        if tg is not None:
+            t = tg(c.mout) if callable(tg) else tg
             tags[t] = tags.get(t, 0) + 1
     distinct = len({(c.op or "") + "|" + (c.model if isinstance(c.model, str) else "") for c in cases if c.nontrivial})
     samples = []
